@@ -143,7 +143,7 @@ def same_float(impl, model):
 
 
 def same_exact(impl, modelq, n, m):
-    """exact (Rat) model vs code: the code's rounding only"""
+    """exact (Rat) model vs code: the code's rounding only (absolute, scaled by the size of the data terms)"""
     if impl[0] != modelq[0]:
         return False
     if impl[0] == "err":
@@ -151,15 +151,14 @@ def same_exact(impl, modelq, n, m):
     if len(impl[2]) != len(modelq[2]):
         return False
     scale = max([abs(x) for x in modelq[2][3::7] if x is not None] + [abs(modelq[1][0]), abs(modelq[1][3])])
-    tol = 64 * (n * n + m * m + 8) * EPS
+    tol = Fraction(64 * (n * n + m * m + 8) * EPS)
 
-    def ok(a, q):
+    def ok(a, q, sc):
         if q is None:
             return isnan(a)
-        if isnan(a):
-            return False
-        return abs(Fraction(a) - q) <= tol * max(abs(q), scale * Fraction(1, 1)) if q != 0 or a != 0 else True
-    return all(ok(a, q) for a, q in zip(impl[1], modelq[1])) and all(ok(a, q) for a, q in zip(impl[2], modelq[2]))
+        return (not isnan(a)) and math.isfinite(a) and abs(Fraction(a) - q) <= tol * sc
+    return (all(ok(a, q, scale) for a, q in zip(impl[1], modelq[1])) and
+            all(ok(a, q, Fraction(1) if k % 7 in (0, 4) else scale) for k, (a, q) in enumerate(zip(impl[2], modelq[2]))))
 
 
 # --------------------------------------------------------------------------------------
@@ -204,21 +203,14 @@ def exact_parts(obs, ens):
             oN += w
     g = [Fraction(0)] * (m + 1)
     o = [None] * (m + 1)
-    o[0], o[m] = o0, oN
-    if m == 0:
-        raise ValueError
-    g[0] = b[0] / o0 if o0 != 0 else Fraction(0)
-    gm = a[m] / (1 - oN) if oN != 1 else Fraction(0)
     for j in range(1, m):
         g[j] = a[j] + b[j]
         o[j] = b[j] / g[j] if g[j] != 0 else None
-    gl = g[:m] + [gm]
-    ol = o[:m] + [oN]
-    if m >= 1:
-        ol[0] = o0
-    reli = sum(gl[j] * (ol[j] - Fraction(j, m)) ** 2 for j in range(m + 1) if gl[j] > 0)
-    pot = sum(gl[j] * ol[j] * (1 - ol[j]) for j in range(m + 1) if gl[j] > 0)
-    return {"crps": crps, "unc": unc, "reli": reli, "pot": pot, "G": sum(gl), "a": a, "b": b}
+    g[0], o[0] = (b[0] / o0 if o0 != 0 else Fraction(0)), o0          # eq. 33, low outliers
+    g[m], o[m] = (a[m] / (1 - oN) if oN != 1 else Fraction(0)), oN    # eq. 33, high outliers
+    reli = sum(g[j] * (o[j] - Fraction(j, m)) ** 2 for j in range(m + 1) if g[j] > 0)
+    pot = sum(g[j] * o[j] * (1 - o[j]) for j in range(m + 1) if g[j] > 0)
+    return {"crps": crps, "unc": unc, "reli": reli, "pot": pot, "G": sum(g), "a": a, "b": b}
 
 
 def qclose(x, q, tol):
@@ -242,6 +234,7 @@ class Oracle:
         scale = max(ex["G"], ex["crps"], ex["unc"])
         tolc = Fraction(8 * (n + m + 8) * EPS) * ex["crps"] + Fraction(1, 10 ** 300)
         tolg = Fraction(K) * scale + Fraction(1, 10 ** 300)
+        self.tolfreq = Fraction(K)
         if not qclose(crps, ex["crps"], tolc):
             self.flag("crps/value_ne_definition", "returned CRPS differs from mean(E|X-y| - E|X-X'|/2)", case,
                       returned=crps, required=ex["crps"])
@@ -297,7 +290,7 @@ class Oracle:
             ff = f if col in (1, 2, 3, 5, 6) else Fraction(1)
             if isnan(x) != isnan(y):
                 bad.append(f"table[{k // 7}].{COLS[col]}")
-            elif not isnan(x) and col in (0, 1, 2) and not qclose(y, Fraction(x) * ff, tolg * f):
+            elif not isnan(x) and not qclose(y, Fraction(x) * ff, self.tolfreq if col in (0, 4) else tolg * f):
                 bad.append(f"table[{k // 7}].{COLS[col]}")
         if bad:
             self.flag(sig, what, case, differs=bad[:6], **(extra or {}))
@@ -528,10 +521,6 @@ def run_cases(ctx, cases, tag):
                     ctx.compare("C03/exact", slim, canon(res)[:2000], qmap[k][:2000])
         # ---- oracle on the real code
         if not in_quantifier(case):
-            if ok and not kept_all_finite(case):
-                continue
-            if ok:
-                orc.flag("crps/accepts_invalid", "a call with no valid forecast / mismatched lengths is accepted", slim)
             continue
         if not ok:
             lay = case.get("layout", "flat")
